@@ -124,7 +124,7 @@ PROPS["C02"] = dict(
                 "syscall ABI's, that the base directory is selected from the kernel's (int)reg view of dirfd, and that every create/truncate/write-capable open is "
                 "checked as a write (unreadable open_how => write)."),
     level_note=SYMEX_NOTE + "Register accessors, GetString, getProcCwd/getProcFd, os.Lstat and PtracePeekData are stubs; the ABI table in the harness is written from the man pages. "
-               "Symlink/'..' resolution against a symbolic forest is NOT yet part of this check (see outside).",
+               "Resolve: absPath/absPathAt run against a symbolic forest and are compared with a reference implementation of the kernel's path walk. GetString runs against a tracee-memory model.",
     explanation="Handle/check*/absPath*/isOpenReadOnly/readOpenHowFlags executed symbolically; oracles: ABI table, kernel int-dirfd rule, open(2) flag semantics.",
     bounds={"syscall number": "all values: the whole table plus 'unknown'", "dirfd register": "all 2^64 values x 15 *at syscalls", "open flags": "all 2^64 words for open/openat/openat2",
             "file system": "ArgPositions/Dirfd/OpenFlags: no symbolic links; Resolve: symbolic forest of 6 nodes (/a,/a/b,/a/b/c,/d,/d/e,/f), each dir/file/link/absent, 10 link targets, 4 (quick) / 19 (thorough) query strings, cwd- / AT_FDCWD- / descriptor-relative"},
@@ -134,6 +134,8 @@ PROPS["C02"] = dict(
         dict(pkg=RP, run="^VerifC02_ArgPositions$", replay="model", reach=["path-syscall", "other-syscall", "unknown-number"], timeout=900),
         dict(pkg=RP, run="^VerifC02_Dirfd$", replay="model", reach=["at_fdcwd", "descriptor"]),
         dict(pkg=RP, run="^VerifC02_OpenFlags$", replay="model", reach=["write-capable", "read-only", "open_how-unreadable"]),
+        # the pathname shown to the policy is the tracee's whole NUL-terminated string (page-boundary straddling, unmapped tails): tracee-memory model of C15
+        dict(pkg=PT, run="^VerifC15_GetString_Quick$", replay="model", reach=["terminated", "unterminated"]),
         dict(pkg=RP, run="^VerifC02_Resolve_Q$", tiers=["quick", "thorough"], replay="model", preempt=0, timeout=1500, reach=["kernel-resolves", "kernel-fails", "dotdot-after-symlink"]),
     ] + [dict(pkg=RP, run="^VerifC02_Resolve_T%d$" % i, tiers=["thorough"], replay="model", preempt=0, timeout=6000, max_paths=5000000) for i in range(4)],
 )
@@ -263,13 +265,16 @@ PROPS["C11"] = dict(
     level="model_checking",
     level_text=("Cancellation instants as schedule positions: the real unshare.Run, ptracer trace loop and container Execve/waitForDone + container-side handleExecveStarted run against "
                 "process/ptrace/link models with the context cancelled before the run or at any scheduling point within the delay bound; the program ends by itself (any status) or runs until killed; "
-                "asserted: the call returns (no deadlock), the program is dead and reaped, the verdict is the genuine one or Time Limit Exceeded, never Runner Error / Disallowed Syscall."),
+                "asserted: the call returns (no deadlock), the program is dead and reaped, the verdict is the genuine one or Time Limit Exceeded, never Runner Error / Disallowed Syscall. "
+                "Launch race: the real forkexec launcher (child as a second model process) under the real Tracer.Trace with the context cancelled before the child owns its process group. "
+                "Destroy: the real container.Destroy before, or at any instant of, an in-flight Ping/Open/Execve on the real host endpoint: both return, a call begun after the close fails, "
+                "a run of a never-ending program comes back as an error, init is killed then reaped, nothing inside survives, a later call fails."),
     level_note=SYMEX_NOTE + CT_NOTE + "Wall-clock promptness is read as 'without waiting for an event that may never happen'.",
     technique="bounded model checking of the real cancellation paths (delay-bounded schedule enumeration + symbolic status words)",
     explanation="unshare.Run, Tracer.trace, container.Execve with modelled wait4/kill/ptrace and a canceller thread.",
     bounds={"delay bound": "2 (unshare, ptrace), 1 (container)", "program": "ends by itself with any wait status or runs until killed"},
-    outside=["Destroy during an in-flight call"],
-    assumptions=["K-PTRACE, K-PROC contracts"],
+    outside=["Destroy while Build is still configuring the container", "wall-clock bounds (promptness is 'never waits for an event that may not happen')"],
+    assumptions=["K-PTRACE, K-PROC contracts", "K-PROC: death of the pid-namespace init kills every process inside", "Go net: I/O on a connection closed by this process fails with net.ErrClosed and wakes blocked readers"],
     harnesses=[
         dict(pkg=US, run="^VerifC11_UnshareCancel$", replay="model", preempt=2, reach=["returned", "killed", "ended-by-itself"]),
         dict(pkg=PT, run="^VerifC11_PtraceCancel$", replay="model", preempt=2, reach=["returned"]),
@@ -278,6 +283,10 @@ PROPS["C11"] = dict(
         # the canceller's kill landing between a stop notification and the tracer's next ptrace request (ESRCH at any request)
         dict(pkg=PT, run="^VerifC15_TraceESRCH$", replay="model", reach=["vanished"], timeout=900),
         dict(pkg=CT, run="^VerifC10_Ops1Cancel$", replay="model", preempt=1, timeout=1500, reach=["cancelled-run", "program-verdict"]),
+        # Destroy before / concurrently with (free thread; injected at any transport event of either side) an in-flight Ping/Open/Execve
+        dict(pkg=CT, run="^VerifC11_DestroyBeforeCall$", replay="model", preempt=1, reach=["destroy-before-call", "call-failed", "destroyed"]),
+        dict(pkg=CT, run="^VerifC11_DestroyThread$", replay="model", preempt=1, timeout=900, reach=["call-failed", "call-succeeded", "endless-program-call-returned", "destroyed"]),
+        dict(pkg=CT, run="^VerifC11_DestroyInjected$", replay="model", preempt=1, timeout=1500, reach=["cancel-injected", "call-failed", "call-succeeded", "destroyed"]),
     ],
 )
 
@@ -348,11 +357,15 @@ PROPS["C17"] = dict(
     technique="bounded model checking (delay-bounded interleavings) of concurrent calls on the real endpoints",
     explanation="two concurrent host calls over the link model; K-PTRACE monitor on wait4/kill targets.",
     bounds={"threads": "2 callers (not 16)", "delay bound": "2"},
-    outside=["3+-way interactions, OS-thread scheduling, plain-memory data races", "descriptor inheritance races across concurrent launches (all descriptors are created close-on-exec atomically; not modelled further)"],
+    outside=["3+-way interactions, OS-thread scheduling, plain-memory data races", "descriptor creators that bypass ForkLock"],
     assumptions=[],
     harnesses=[
         dict(pkg=CT, run="^VerifC17_TwoCallers$", replay="model", preempt=2, timeout=1500, reach=["both-returned"]),
+        # Ping racing a running program in the same environment (Ping's socket deadline may expire while it is armed and the program still runs)
+        dict(pkg=CT, run="^VerifC17_PingDuringExecve$", replay="model", preempt=1, timeout=1500, reach=["both-returned", "program-ran"]),
         dict(pkg=PT, run="^VerifC03_Trace_Quick$", replay="model", timeout=900),
+        # the launcher's fork excludes goroutines that create descriptors under ForkLock.RLock (no inherited foreign descriptor)
+        dict(pkg=FE, run="^VerifC17_ForkVsDescriptorCreator$", replay="model", preempt=2, timeout=900, reach=["execed", "creator-ran"]),
     ],
 )
 
